@@ -10,6 +10,8 @@ THEOREMS = [
     "C05_transparent_commit",
     "C05_transparent_proposed",
     "C05_interrupted_job_fails",
+    "C05_transparent_kbd_only",
+    "C05_fatal_fails",
     "C05_transparent_from",
     "C05_submit_hit_settles",
     "C05_current_partial",
@@ -336,7 +338,8 @@ def _probe_variant():
     """which cache discipline the tree under test has — by behaviour, once per worker process:
     R = cache written at admission (a lost job + manual reset gives a stale hit; /repo before b54ba0f),
     S = cache records a processed result, a KeyboardInterrupt in a job leaves the node not failed (before f3b0474),
-    N = … and a KeyboardInterrupt in a job fails the node (/repo now).
+    N = … and a KeyboardInterrupt in a job fails the node (before 9a3aae7),
+    H = … and so does every other BaseException, locally and in a job (/repo now).
     The correspondence then demands THIS variant of the model, so a reverted fix shows as its old variant (whose
     violations the oracle reports) and a half-reverted one as a divergence."""
     global _VARIANT
@@ -350,7 +353,11 @@ def _probe_variant():
         e, n = QExec(), _mk_node(True)
         for op in ("set4", "submit", "complete"):
             _apply_node(n, op, e)
-        _VARIANT = "R" if stale else ("N" if n.failed else "S")
+        e, m = QExec(), _mk_node(True)
+        for op in ("set5", "run"):
+            _apply_node(m, op, e)
+        # H = every BaseException ending the function fails the run (/repo now, 9a3aae7)
+        _VARIANT = "R" if stale else ("H" if m.failed and n.failed else ("N" if n.failed else "S"))
     return _VARIANT
 
 
@@ -835,9 +842,44 @@ def _run_tree(host, sched):
         sched.drain()
 
 
+_TREE_PROBE = None
+
+
+def _probe_tree():
+    """two more behaviours of the tree under test, by behaviour, once per worker (reported in the histogram): does a
+    composite that answers from its cache make its children fetch (a1109ce), do the transformer factories honour
+    `use_cache` (393c49f)"""
+    global _TREE_PROBE
+    if _TREE_PROBE is None:
+        from pyiron_workflow import Workflow
+        from pyiron_workflow.nodes.transform import inputs_to_list
+
+        from . import nodes
+
+        wf = Workflow("probe", autoload=None)
+        wf.n0 = nodes.F0()
+        wf.n1 = nodes.F1(a=wf.n0)
+        try:
+            wf.run()
+            wf.n1.inputs.a.value = "x"
+            wf.run()
+            refetch = wf.n1.inputs.a.value != "x"
+        except Exception:  # noqa: BLE001
+            refetch = None
+        try:
+            inputs_to_list(7)
+            switch = inputs_to_list(7, use_cache=False).use_cache is False
+        except Exception:  # noqa: BLE001
+            switch = None
+        _TREE_PROBE = {"refetch_on_hit_" + str(refetch): 1, "use_cache_switch_honoured_" + str(switch): 1}
+    return _TREE_PROBE
+
+
 def _run_tree_case(case):
     from . import nodes
     from .execsim import Scheduler
+
+    probe = _probe_tree()
 
     nodes.reset()
     a = _build_tree(case["shape"], True)
@@ -918,7 +960,7 @@ def _run_tree_case(case):
         elif cop[0] not in ("pickle", "exec"):
             mlines.append(_model_line(cop))
     return {"obs": obs, "rows": rows, "mlines": mlines, "hits": hits, "special": 0,
-            "stats": {"tree_cases": 1, "tree_hits": hits, "tree_runs": sum(1 for r in rows if r["resolved"] == ["run"]),
+            "stats": {"tree_cases": 1, **probe, "tree_hits": hits, "tree_runs": sum(1 for r in rows if r["resolved"] == ["run"]),
                       **depth_hist}}
 
 
@@ -1045,7 +1087,7 @@ def diff(case, impl, model):
         mine.append(r["line"])
     # R = /repo before b54ba0f, S = cache recorded on success, N = /repo now (+ KeyboardInterrupt caught in the callback):
     # the variant the tree was probed to have (old replay files without the probe: any)
-    tags = (impl["variant"],) if impl.get("variant") else ("R", "S", "N")
+    tags = (impl["variant"],) if impl.get("variant") else ("R", "S", "N", "H")
     variants = {tag: [l[2:] for l in model if l.startswith(tag + " ")] for tag in tags}
     return _diff_variants(mine, variants, case["ops"])
 
